@@ -156,6 +156,35 @@ _CLASS_TYPE = {
 }
 
 
+def c13_registers(ctx):
+    ctx.rule('C13.12', 'the register names the guards know are the names as configured', 2)
+    mi = ctx.repo.func('bespokeasm.assembler.model.AssemblerModel.__init__')
+    st = self_attr_stores(mi.node, '_registers')
+    ok = len(st) == 1
+    if ok:
+        v = deref(ctx, mi, st[0][2], st[0][0])
+        txt = unparse(v)
+        inner = deref(ctx, mi, v.args[0], st[0][0]) if isinstance(v, ast.Call) and unparse(v.func) in ('set', 'frozenset') and len(v.args) == 1 else None
+        # set(<configured list>) possibly with a None guard; no per-name transformation
+        ok = inner is not None and not any(isinstance(x, (ast.ListComp, ast.SetComp, ast.GeneratorExp, ast.Lambda)) for x in ast.walk(v)) \
+            and "['general']" in unparse(deref(ctx, mi, inner.body if isinstance(inner, ast.IfExp) else inner, st[0][0])) and 'registers' in unparse(deref(ctx, mi, inner.body if isinstance(inner, ast.IfExp) else inner, st[0][0]))
+    ctx.check(ok, 'registers:as-configured', mi.site(st[0][0]) if st else mi.site(), 'the model\'s register set is the configured list of names, unchanged', '; '.join(unparse(x[0]) for x in st))
+    rg = ctx.repo.func('bespokeasm.assembler.model.AssemblerModel.registers')
+    rr = returns(rg)
+    ctx.check(len(rr) == 1 and unparse(rr[0].value) == 'self._registers', 'registers:accessor', rg.site(), 'model.registers is that set', '; '.join(unparse(r) for r in rr))
+
+
+def c13_ids(ctx):
+    ctx.rule('C13.11', 'disallowed combinations name operands by their configured ids, unchanged', 2)
+    oi = ctx.repo.func('bespokeasm.assembler.model.operand.Operand.__init__')
+    st = self_attr_stores(oi.node, '_id')
+    ctx.check(len(st) == 1 and unparse(st[0][2]) == oi.call_params[0].arg, 'ids:stored-as-configured', oi.site(), 'an operand keeps the id it is configured under (the key of the YAML mapping, whatever its type)',
+              '; '.join(unparse(x[0]) for x in st))
+    og = ctx.repo.func('bespokeasm.assembler.model.operand.Operand.id')
+    rr = returns(og)
+    ctx.check(len(rr) == 1 and unparse(rr[0].value) == 'self._id', 'ids:read-as-stored', og.site(), 'operand.id is that id', '; '.join(unparse(r) for r in rr))
+
+
 def c13_4(ctx):
     ctx.rule('C13.4', 'operand type precedence table; sets sorted by it; every alternative tried in order', 18)
     vals = {}
@@ -474,12 +503,20 @@ def c13_state(ctx):
     state_discipline(ctx, ('bespokeasm.assembler.model', 'bespokeasm.assembler.bytecode.generator'))
 
 
-RULES = [c13_1, c13_dispatch, c13_2, c13_3, c13_4, c13_5, c13_6, c13_7, c13_8, c13_macros, c13_state]
+def c13_vetoes(ctx):
+    ctx.rule('C13.10', 'an operand form is refused only by its own pattern (no shortcut in front of it)', 5)
+    from rules.shared import no_pre_pattern_veto
+    no_pre_pattern_veto(ctx, 'bespokeasm.assembler.model.operand')
+
+RULES = [c13_1, c13_dispatch, c13_2, c13_3, c13_registers, c13_ids, c13_4, c13_5, c13_6, c13_7, c13_8, c13_macros, c13_state, c13_vetoes]
 
 _GI = 'assembler/bytecode/generator/instruction.py'
 _OPF = 'assembler/model/operand_parser.py'
 _OSF = 'assembler/model/operand_set.py'
 MUTANTS = [
+    V('c13-register-set-lowercased', 'assembler/model/__init__.py', "        self._registers = set(registers if registers is not None else [])", "        self._registers = {str(r).lower() for r in (registers if registers is not None else [])}", 'C13.12'),
+    V('c13-operand-id-stringified', 'assembler/model/operand/__init__.py', "        self._id = operand_id\n", "        self._id = str(operand_id)\n", 'C13.11'),
+    V('c13-indirect-needs-leading-bracket', 'assembler/model/operand/types/indirect_register.py', "        # first check that operand is what we expect\n        match = re.match(\n            self._parse_pattern,", "        if not operand.lstrip().startswith('['):\n            return None\n        match = re.match(\n            self._parse_pattern,", 'C13.10'),
     V('c13-dispatch-operands-stripped-of-case', 'assembler/bytecode/generator/__init__.py', "                        instruction, line_id, mnemonic, operands, isa_model, memzone_manager\n", "                        instruction, line_id, mnemonic, operands.lower(), isa_model, memzone_manager\n", 'C13.9'),
     V('c13-dispatch-macro-first-word', 'assembler/bytecode/generator/__init__.py', "                        instruction, line_id, mnemonic, operands, isa_model, memzone_manager, parser_class\n", "                        instruction, line_id, mnemonic, operands.split(';')[0], isa_model, memzone_manager, parser_class\n", 'C13.9'),
     V('c13-enum-prefix-match', 'assembler/model/operand/types/enumeration_operand.py', "        match = re.match(fr'^{self.match_pattern}$', operand.strip())", "        match = re.match(self.match_pattern, operand.strip())", 'C13.8'),
